@@ -72,11 +72,12 @@ def main():
             return 2
         dst = os.path.join(wt, a.dest, "zz_demo%s_test.go" % a.k)
         shutil.copyfile(demo, dst)
-        rc, out = sh(["go", "test", "-vet=off", "-count=1", "./" + a.dest + "/"], wt)
-        ran.append({"cmd": "go test ./%s/ with demo (patched)" % a.dest, "rc": rc, "tail": out[-600:]})
+        SKIP = ["-skip", "TestMakeFullImage|TestMountISO"]   # always failing here, and they leave 4 GiB files in /tmp
+        rc, out = sh(["go", "test", "-vet=off", "-count=1"] + SKIP + ["./" + a.dest + "/"], wt)
+        ran.append({"cmd": "go test -skip 'TestMakeFullImage|TestMountISO' ./%s/ with demo (patched)" % a.dest, "rc": rc, "tail": out[-600:]})
         demo_fails = rc != 0
         sh(["git", "checkout", "--", "."], wt)
-        rc, out = sh(["go", "test", "-vet=off", "-count=1", "./" + a.dest + "/"], wt)
+        rc, out = sh(["go", "test", "-vet=off", "-count=1"] + SKIP + ["./" + a.dest + "/"], wt)
         # the package may contain always-failing baseline tests (pkg/fs): only the demo's own tests matter there
         ran.append({"cmd": "go test ./%s/ with demo (unpatched)" % a.dest, "rc": rc, "tail": out[-400:]})
         demo_passes = rc == 0 or ("TestMakeFullImage" in out and "--- FAIL: TestDemo" not in out and "--- FAIL: TestC0" not in out)
